@@ -56,7 +56,9 @@ func TestMain(m *testing.M) {
 
 // ---------------------------------------------------------------- (a) groups
 
-const capSets = 200000
+const capSets = 600000
+
+var errNotExhaustive = errors.New("not exhaustive")
 
 func bfsGroups(name string, schema am.Schema, names am.S, groups map[string]am.S, st *ev.Stats) (int, int, error) {
 	id := "c15-bfs-" + name
@@ -79,7 +81,7 @@ func bfsGroups(name string, schema am.Schema, names am.S, groups map[string]am.S
 		}
 	}
 	// the sub-space that can influence the groups: the smallest set R containing the group members,
-	// every state with a relation pointing into R, and everything a member of R adds
+	// every state with a relation pointing into R, and everything a member of R adds or requires
 	inR := map[string]bool{}
 	for _, g := range groups {
 		for _, n := range g {
@@ -100,6 +102,21 @@ func bfsGroups(name string, schema am.Schema, names am.S, groups map[string]am.S
 			}
 			if inR[n] {
 				for _, t := range sd.Add {
+					if !inR[t] {
+						inR[t], changed = true, true
+					}
+				}
+			}
+		}
+	}
+	// ... plus what the states of R need in order to become active at all (their transitive Requires; without them
+	// no member of a group that requires e.g. Ready can ever be activated and the search is vacuous). These are toggled
+	// directly by the search, so the states pointing at THEM are not pulled in (that would be the whole schema).
+	for changed := true; changed; {
+		changed = false
+		for n, sd := range parsed {
+			if inR[n] {
+				for _, t := range sd.Require {
 					if !inR[t] {
 						inR[t], changed = true, true
 					}
@@ -164,7 +181,7 @@ func bfsGroups(name string, schema am.Schema, names am.S, groups map[string]am.S
 				}
 				if k := key(nxt); !seen[k] {
 					if len(seen) >= capSets {
-						return len(seen), trans, fmt.Errorf("%s: more than %d reachable sets over %d group-relevant states: not exhaustive", name, capSets, len(core))
+						return len(seen), trans, fmt.Errorf("%s: more than %d reachable sets over %d group-relevant states: %w", name, capSets, len(core), errNotExhaustive)
 					}
 					seen[k] = true
 					queue = append(queue, nxt)
@@ -190,6 +207,13 @@ func TestGroups(t *testing.T) {
 		{"WorkerSchema", ssnode.WorkerSchema, ssW.Names(), map[string]am.S{"WorkStatus": sgW.WorkStatus}},
 	} {
 		sets, trans, err := bfsGroups(c.name, c.schema, c.names, c.groups, st)
+		if errors.Is(err, errNotExhaustive) {
+			// the search budget is a property of the harness, not of the schema: nothing was decided
+			st.Inconclusive()
+			st.Class("groups: search budget exceeded for " + c.name + " (inconclusive)")
+			t.Logf("inconclusive: %v", err)
+			continue
+		}
 		if err != nil {
 			st.Journal(map[string]any{"kind": "groups", "case": c.name})
 			ev.G().PinLast()
@@ -238,8 +262,24 @@ type poolTracer struct {
 
 func (p *poolTracer) TracerId() string { return "c15pool" }
 
+// pool counts the harness's own way, from the raw per-worker bookkeeping: a worker is ready iff it has an RPC
+// connection, no recent errors and its mirrored machine is Ready; the minimum is min(Min, Max).
+func (p *poolTracer) pool() (tracked, ready, min int) {
+	raw := p.s.VerifWorkersRaw()
+	for _, w := range raw {
+		if w.HasRpc && w.RecentErrs == 0 && w.Ready {
+			ready++
+		}
+	}
+	min = p.s.Min
+	if p.s.Max < min {
+		min = p.s.Max
+	}
+	return len(raw), ready, min
+}
+
 func (p *poolTracer) TransitionStart(tx *am.Transition) {
-	tr, rd, _ := p.s.VerifPool()
+	tr, rd, _ := p.pool()
 	p.mu.Lock()
 	p.startTracked, p.startReady = tr, rd
 	p.mu.Unlock()
@@ -253,7 +293,13 @@ func (p *poolTracer) add(f string, a ...any) {
 
 func (p *poolTracer) TransitionEnd(tx *am.Transition) {
 	s := p.s
-	tracked, ready, min := s.VerifPool()
+	tracked, ready, min := p.pool()
+	// the supervisor's own counting helpers must agree with the raw bookkeeping (same goroutine, same instant)
+	if lt, lr, lm := s.VerifPool(); lt != tracked || lr != ready || lm != min {
+		p.mu.Lock()
+		p.add("the supervisor counts tracked=%d ready=%d min=%d, its bookkeeping says tracked=%d ready=%d min=%d (Min %d Max %d)", lt, lr, lm, tracked, ready, min, s.Min, s.Max)
+		p.mu.Unlock()
+	}
 	names := s.Mach.StateNames()
 	idx := func(n string) int {
 		for i, x := range names {
